@@ -58,7 +58,9 @@ def mk(fn, src, contract, repl, shape, strides, alias, tier, props, gq=0):
 # quick box: one representative per weak ordering of (res,a,b) sizes, plus zeros
 QUICK3 = [(0, 0, 0), (1, 1, 1), (2, 2, 2), (1, 2, 2), (2, 1, 1), (2, 1, 2), (1, 2, 1), (2, 2, 1), (1, 1, 2),
           (1, 2, 3), (1, 3, 2), (2, 1, 3), (2, 3, 1), (3, 1, 2), (3, 2, 1), (2, 0, 1), (2, 1, 0), (0, 1, 2), (1, 0, 0), (3, 0, 0)]
-ALIAS3 = {1: [(1, 1, 1), (2, 1, 2), (1, 2, 0)], 2: [(1, 1, 1), (2, 2, 1), (1, 0, 2)], 3: [(2, 2, 2), (1, 2, 2)]}
+# aliased shapes: equal sizes, result shorter than the aliased operand, and -- added after seed C13-add_inplace_skip_zero_ext was missed by
+# the quick tier -- result LONGER than the aliased operand (zero-extension limbs while aliased), with the other operand shorter / equal / empty
+ALIAS3 = {1: [(1, 1, 1), (2, 1, 2), (1, 2, 0), (3, 2, 1), (2, 1, 0), (2, 1, 1)], 2: [(1, 1, 1), (2, 2, 1), (1, 0, 2), (3, 1, 2), (2, 1, 1), (1, 0, 0)], 3: [(2, 2, 2), (1, 2, 2)]}
 QUICK2 = [(0, 0), (1, 1), (2, 2), (1, 2), (2, 1), (3, 1), (1, 3), (0, 2), (2, 0)]
 ALIAS2 = [(1, 1), (2, 1), (1, 2), (3, 2)]
 
@@ -319,7 +321,7 @@ def vmp_concrete_jobs(seed=0):
                 J.append(Job(name="vmp.apply_dft_%s.r%da%d.m%dx%d.N%d" % (var, rs, as_, nr, nc, n), props=["C11", "C18", "C15"], shape="S4",
                              sources=SRC_[:1], harness="vec_vmp.c", entry="h_vmp_apply_dft", enforce=[(fn, "vmp_apply_dft__c")], avx=avx,
                              replace=[("fft64_vec_znx_dft", "vec_znx_dft_site__c"), ("fft64_vmp_apply_dft_to_dft_" + var, "vmp_apply_dft_to_dft_site__c")],
-                             defines=d, cbmc_flags=["--object-bits", "10"], functions=[fn], timeout=600, tier="quick" if (n == 8 or not avx) else "thorough",
+                             defines=d, cbmc_flags=["--object-bits", "10"], functions=[fn], timeout=600, tier="quick" if (n == 8 or not avx) else "thorough", replay={"driver": "vmp", "fn": "apply_dft_full_" + var},
                              bound_note="N=%d, shape (res,a,nrows,ncols)=(%d,%d,%d,%d), a stride N+1: scratch partition [rows*N*8 | 128 | 64*rows] against the two callee contracts" % (n, rs, as_, nr, nc)))
         for (nr, nc) in [(1, 1), (2, 2), (2, 3), (3, 1), (0, 2), (2, 0)]:
             for n in (4, 8, 16):
